@@ -24,7 +24,7 @@ pub fn runs_for(tier: &str) -> u64 {
     }
     match tier {
         "thorough" => 200_000,
-        _ => 48_000,
+        _ => 32_000,
     }
 }
 
